@@ -233,7 +233,7 @@ Proof.
   assert (Hx_in : In x (hist ++ [x])) by (apply in_or_app; right; left; reflexivity).
   destruct e as [who now m].
   unfold do_event in *. cbn [e_who e_now e_meth] in *.
-  destruct m as [ | pr p | pr | pr q | pr | q | pr | pr | | | q | ids | amt | amt | amt | r nr ].
+  destruct m as [ | pr p | pr | pr q | pr | q | pr | pr | | | q | ids | amt | amt | amt | r nr | bid ].
   - (* create_proof *)
     unfold step. cbn [meth_name]. destruct (lookup _ (t_methods t)) as [acc|]; cbn; [|split; [exact Hsame|intro H; exfalso; revert H; apply Hnochange; auto]].
     destruct (admitted acc (c_roles c) who); cbn; [|split; [exact Hsame|intro H; exfalso; revert H; apply Hnochange; auto]].
@@ -519,6 +519,9 @@ Proof.
   - (* direct role update: never admitted *)
     unfold step. rewrite (direct_update_never t r (c_roles c) who Tup). cbn.
     split; [exact Hsame|intro H; exfalso; revert H; apply Hnochange; auto].
+  - (* recovery badge burnt by its holder *)
+    unfold step. destruct (existsb (N.eqb bid) (c_minted c) && negb (existsb (N.eqb bid) (c_burned c))); cbn;
+      (split; [apply (Inv_st _ c); [reflexivity|exact Hsame]|intro H; exfalso; revert H; apply Hnochange; auto]).
 Qed.
 
 (* histories *)
@@ -602,9 +605,10 @@ Ltac step_cases t c who m :=
 Lemma step_fail_same : forall t c who now m, snd (step t c who now m) <> Ok -> fst (step t c who now m) = c.
 Proof.
   intros t c who now m H.
-  destruct m as [ | pr p | pr | pr q | pr | q | pr | pr | | | q | ids | amt | amt | amt | r nr ];
+  destruct m as [ | pr p | pr | pr q | pr | q | pr | pr | | | q | ids | amt | amt | amt | r nr | bid ];
     try destruct pr; revert H; unfold step; cbn [meth_name];
     try (destruct (direct_update_admitted t _ (c_roles c) who); cbn; try reflexivity; intros H; exfalso; apply H; reflexivity);
+    try (destruct (existsb (N.eqb _) (c_minted c) && negb _); cbn; try reflexivity; intros H; exfalso; apply H; reflexivity);
     (destruct (lookup _ (t_methods t)) as [acc|]; cbn; [|reflexivity]);
     (destruct (admitted acc (c_roles c) who); cbn; [|reflexivity]);
     unfold body, confirm_rules, confirm_withdraw;
@@ -628,10 +632,11 @@ Lemma stored_none_kept : forall t pr c who now m,
   stored pr (c_st (fst (step t c who now m))) = None.
 Proof.
   intros t pr c who now m Hs Hm.
-  destruct m as [ | pr' p | pr' | pr' q | pr' | q | pr' | pr' | | | q | ids | amt | amt | amt | r nr ];
+  destruct m as [ | pr' p | pr' | pr' q | pr' | q | pr' | pr' | | | q | ids | amt | amt | amt | r nr | bid ];
     try destruct pr'; destruct pr; try discriminate Hm;
     unfold step; cbn [meth_name];
     try (destruct (direct_update_admitted t _ (c_roles c) who); cbn [fst snd]; exact Hs);
+    try (destruct (existsb (N.eqb _) (c_minted c) && negb _); cbn [fst snd]; exact Hs);
     (destruct (lookup _ (t_methods t)) as [acc|]; cbn [fst snd]; [|exact Hs]);
     (destruct (admitted acc (c_roles c) who); cbn [fst snd]; [|exact Hs]);
     unfold body, confirm_rules, confirm_withdraw;
@@ -646,7 +651,7 @@ Lemma stored_none_confirm_fails : forall t pr c who now m,
   stored pr (c_st c) = None -> is_confirm_rec pr m = true -> snd (step t c who now m) <> Ok.
 Proof.
   intros t pr c who now m Hs Hm.
-  destruct m as [ | pr' p | pr' | pr' q | pr' | q | pr' | pr' | | | q | ids | amt | amt | amt | r nr ];
+  destruct m as [ | pr' p | pr' | pr' q | pr' | q | pr' | pr' | | | q | ids | amt | amt | amt | r nr | bid ];
     try destruct pr'; destruct pr; try discriminate Hm; unfold stored in Hs;
     unfold step; cbn [meth_name];
     (destruct (lookup _ (t_methods t)) as [acc|]; cbn; [|discriminate]);
@@ -662,10 +667,11 @@ Lemma wd_false_kept : forall t pr c who now m,
   stored_wd pr (c_st (fst (step t c who now m))) = false.
 Proof.
   intros t pr c who now m Hs Hm.
-  destruct m as [ | pr' p | pr' | pr' q | pr' | q | pr' | pr' | | | q | ids | amt | amt | amt | r nr ];
+  destruct m as [ | pr' p | pr' | pr' q | pr' | q | pr' | pr' | | | q | ids | amt | amt | amt | r nr | bid ];
     try destruct pr'; destruct pr; try discriminate Hm;
     unfold step; cbn [meth_name];
     try (destruct (direct_update_admitted t _ (c_roles c) who); cbn [fst snd]; exact Hs);
+    try (destruct (existsb (N.eqb _) (c_minted c) && negb _); cbn [fst snd]; exact Hs);
     (destruct (lookup _ (t_methods t)) as [acc|]; cbn [fst snd]; [|exact Hs]);
     (destruct (admitted acc (c_roles c) who); cbn [fst snd]; [|exact Hs]);
     unfold body, confirm_rules, confirm_withdraw;
@@ -678,7 +684,7 @@ Lemma wd_false_confirm_fails : forall t pr c who now m,
   stored_wd pr (c_st c) = false -> is_confirm_wd pr m = true -> snd (step t c who now m) <> Ok.
 Proof.
   intros t pr c who now m Hs Hm.
-  destruct m as [ | pr' p | pr' | pr' q | pr' | q | pr' | pr' | | | q | ids | amt | amt | amt | r nr ];
+  destruct m as [ | pr' p | pr' | pr' q | pr' | q | pr' | pr' | | | q | ids | amt | amt | amt | r nr | bid ];
     try destruct pr'; destruct pr; try discriminate Hm; unfold stored_wd in Hs;
     unfold step; cbn [meth_name];
     (destruct (lookup _ (t_methods t)) as [acc|]; cbn; [|discriminate]);
@@ -691,10 +697,11 @@ Lemma timer_off_kept : forall t c who now m,
   timer_running (c_st (fst (step t c who now m))) = false.
 Proof.
   intros t c who now m Hs Hm.
-  destruct m as [ | pr' p | pr' | pr' q | pr' | q | pr' | pr' | | | q | ids | amt | amt | amt | r nr ];
+  destruct m as [ | pr' p | pr' | pr' q | pr' | q | pr' | pr' | | | q | ids | amt | amt | amt | r nr | bid ];
     try destruct pr'; try discriminate Hm;
     unfold step; cbn [meth_name];
     try (destruct (direct_update_admitted t _ (c_roles c) who); cbn [fst snd]; exact Hs);
+    try (destruct (existsb (N.eqb _) (c_minted c) && negb _); cbn [fst snd]; exact Hs);
     (destruct (lookup _ (t_methods t)) as [acc|]; cbn [fst snd]; [|exact Hs]);
     (destruct (admitted acc (c_roles c) who); cbn [fst snd]; [|exact Hs]);
     unfold body, confirm_rules, confirm_withdraw;
@@ -820,4 +827,42 @@ Proof.
   - eapply change_needs_two; eauto.
   - intros p Hp. destruct (rule_sat (rs_recovery (c_roles (h_before h))) (e_who (h_ev h))) eqn:E; [reflexivity|].
     exfalso. apply Hnk. split; [exists p; exact Hp|exact E].
+Qed.
+
+(* ------------------------------------------------------------------------------------------ *)
+(* the configured delay never changes: the timed_recovery_delay_in_minutes carried by a proposal is
+   compared (proposal equality) but never written to the controller *)
+Lemma step_delay : forall t c who now m, c_delay (fst (step t c who now m)) = c_delay c.
+Proof.
+  intros t c who now m.
+  destruct m as [ | pr p | pr | pr q | pr | q | pr | pr | | | q | ids | amt | amt | amt | r nr | bid ];
+    try destruct pr; unfold step; cbn [meth_name];
+    try (destruct (direct_update_admitted t _ (c_roles c) who); cbn [fst snd]; reflexivity);
+    try (destruct (existsb (N.eqb _) (c_minted c) && negb _); cbn [fst snd]; reflexivity);
+    (destruct (lookup _ (t_methods t)) as [acc|]; cbn [fst snd]; [|reflexivity]);
+    (destruct (admitted acc (c_roles c) who); cbn [fst snd]; [|reflexivity]);
+    unfold body, confirm_rules, confirm_withdraw;
+    repeat match goal with
+           | |- context [match ?x with _ => _ end] => destruct x eqn:?; cbn [fst snd]
+           end;
+    cbn; congruence.
+Qed.
+Theorem delay_never_changes : forall t evs c h, In h (run t c evs) ->
+  c_delay (h_before h) = c_delay c /\ c_delay (h_after h) = c_delay c.
+Proof.
+  intros t evs. induction evs as [|e evs IH]; intros c h Hin; cbn in Hin; [contradiction|].
+  destruct Hin as [<-|Hin]; cbn.
+  - split; [reflexivity|apply step_delay].
+  - destruct (IH _ _ Hin) as [A B]. unfold do_event in A, B. rewrite step_delay in A, B. auto.
+Qed.
+
+(* the timer at the end of the i32 minute clock: known class = proposal minute + delay beyond i32::MAX *)
+Definition Horizon (n0 : Z) (d : N) : Prop := i32_max < n0 + Z.of_N d.
+Theorem delay_elapsed_except_horizon : forall n0 d now,
+  i32_min <= n0 + Z.of_N d -> ~ Horizon n0 d ->
+  time_elapsed now (n0 * 60 + Z.of_N d * 60) = true -> n0 + Z.of_N d <= now.
+Proof.
+  intros n0 d now Hlo Hh He. unfold Horizon in Hh.
+  replace (n0 * 60 + Z.of_N d * 60) with ((n0 + Z.of_N d) * 60) in He by ring.
+  apply time_elapsed_exact in He; [exact He|]. split; [exact Hlo|lia].
 Qed.
